@@ -53,6 +53,21 @@ def case_strategy():
                 sites.append({"fn": draw(st.sampled_from(["call_next", "recurse"])),
                               "npos": draw(st.sampled_from(sorted(arities))), "kws": []})
             m["sites"] = sites
+        # sometimes several methods come from ONE def statement (a registration helper called once per type):
+        # they share a code object and differ only in closure values
+        factories = []
+        if ms["host"] != "mc" and draw(st.integers(0, 2)) == 0:
+            shape = lambda m: (tuple((p["name"], bool(p.get("posonly"))) for p in m["pos"]),  # noqa: E731
+                               tuple(p["name"] for p in m["kw"]))
+            by_shape = {}
+            for m in methods:
+                by_shape.setdefault(shape(m), []).append(m)
+            groups = [g for g in by_shape.values() if len(g) >= 2]
+            if groups:
+                g = draw(st.sampled_from(groups))
+                for m in g[1:]:
+                    m["sites"] = g[0]["sites"]
+                factories.append([m["id"] for m in g])
         calls = []
         for _ in range(draw(st.integers(1, 5))):
             base = draw(G.calls_for(methods, corpus, ms["kwpool"], fitting=fit, n_calls=(1, 1)))[0]
@@ -66,7 +81,7 @@ def case_strategy():
                                    draw(st.lists(st.sampled_from(corpus), min_size=1, max_size=3)), {}])
             base["script"] = script
             calls.append(base)
-        return {"hier": h, "methods": methods, "host": ms["host"], "calls": calls}
+        return {"hier": h, "methods": methods, "host": ms["host"], "calls": calls, "factories": factories}
 
     return _case()
 
@@ -107,7 +122,10 @@ def run_case(spec):
     res = R.CaseResult()
     env = H.build(spec["hier"])
     try:
-        prog = Program({"hier": spec["hier"], "methods": spec["methods"], "host": spec["host"]}, env=env)
+        prog = Program({"hier": spec["hier"], "methods": spec["methods"], "host": spec["host"],
+                        "factories": spec.get("factories") or []}, env=env)
+        if spec.get("factories"):
+            res.label("methods-from-one-def")
     except Exception as e:  # noqa: BLE001
         res.fail(f"program construction failed: {type(e).__name__}: {e}", None)
         return res
